@@ -108,7 +108,7 @@ func TestAddThroughREST(t *testing.T) {
 		ic.trickle = rapid.Bool().Draw(t, "trickle")
 		ic.cidV = rapid.IntRange(0, 1).Draw(t, "cidv")
 		ic.rawLeaves = ic.cidV == 1 // the client sends cid-version; raw-leaves follows unless set
-		top := drawTree(t, 2, chunk)
+		top := drawTree(t, 2, chunk, false)
 		top.dir = true
 		top.content = nil
 		top.name = fmt.Sprintf("tree%d", n)
